@@ -575,3 +575,65 @@ Lemma along_lanes_id d outer N inner : length d = (outer * (N * inner))%nat ->
   nth ((o * N + t) * inner + i) (along outer N inner (fun o i => lane_list d N inner o i)) c0 =
   nth ((o * N + t) * inner + i) d c0.
 Proof. intros _ o t i Ho Ht Hi. rewrite along_nth by assumption. apply lane_list_nth. exact Ht. Qed.
+
+(* ------------------------------------------------------------------ independence of the unit of the data *)
+Lemma cmean_scale c x N : cmean (fun t => cscale c (x t)) N =c= cscale c (cmean x N).
+Proof. unfold cmean. rewrite !csumr_eq, csumn_scale. cring. Qed.
+
+Lemma remove_bias_scale c x N t :
+  remove_bias (fun t => cscale c (x t)) N t =c= cscale c (remove_bias x N t).
+Proof. unfold remove_bias. cbv zeta. rewrite cmean_scale. cring. Qed.
+
+(* the variance scales with the square, so its root (np.std) scales with |c| *)
+Lemma cvar_scale c x N : cvar (fun t => cscale c (x t)) N == c * c * cvar x N.
+Proof.
+  rewrite !cvar_eq.
+  rewrite (sumn_ext _ (fun t => (c * c) * cnorm2 (remove_bias x N t))).
+  - rewrite sumn_scal. unfold Qdiv. ring.
+  - intros t Ht. rewrite remove_bias_scale. apply cnorm2_scale.
+Qed.
+
+(* z-scores do not depend on the unit: zscore (c x) = zscore x for every c > 0 (the root of the
+   variance of c x is c s); in particular there is no magnitude below which a non-constant series
+   may be left un-normalised *)
+Lemma zscore_scale c x N s t : ~ c == 0 -> ~ s == 0 ->
+  zscore_fn (fun t => cscale c (x t)) N (c * s) t =c= zscore_fn x N s t.
+Proof.
+  intros Hc Hs. unfold zscore_fn. cbv zeta. rewrite remove_bias_scale.
+  generalize (remove_bias x N t). intros [u v].
+  split; unfold cscale, re, im; simpl; field; auto.
+Qed.
+
+Global Instance cdiv_proper : Proper (ceq ==> ceq ==> ceq) cdiv.
+Proof.
+  intros a a' [H1 H2] b b' [H3 H4].
+  split; unfold cdiv, cmul, cinv, cnorm2, re, im in *; simpl; rewrite H1, H2, H3, H4; reflexivity.
+Qed.
+
+Lemma cdiv_scale c a b : ~ c == 0 -> ~ cnorm2 b == 0 -> cdiv (cscale c a) (cscale c b) =c= cdiv a b.
+Proof.
+  intros Hc Hb. destruct a as [ar ai], b as [br bi]. unfold cnorm2, re, im in Hb; simpl in Hb.
+  split; unfold cdiv, cmul, cinv, cscale, cnorm2, re, im; simpl; field; split; try assumption.
+  - intro E. apply Hb. assert (E2 : c * c * (br * br + bi * bi) == 0) by (rewrite <- E; ring).
+    apply Qmult_integral in E2. destruct E2 as [E2|E2]; [|exact E2].
+    apply Qmult_integral in E2. destruct E2; contradiction.
+  - intro E. apply Hb. assert (E2 : c * c * (br * br + bi * bi) == 0) by (rewrite <- E; ring).
+    apply Qmult_integral in E2. destruct E2 as [E2|E2]; [|exact E2].
+    apply Qmult_integral in E2. destruct E2; contradiction.
+Qed.
+
+(* percent change does not depend on the unit either *)
+Lemma pct_scale c x N t : ~ c == 0 -> ~ cnorm2 (cmean x N) == 0 ->
+  pct_fn (fun t => cscale c (x t)) N t =c= pct_fn x N t.
+Proof.
+  intros Hc Hm. unfold pct_fn. cbv zeta. rewrite cmean_scale, (cdiv_scale c (x t) (cmean x N) Hc Hm).
+  reflexivity.
+Qed.
+
+(* the lagged sums are bilinear: scaling x by a and y by b scales every covariance by a b *)
+Lemma lagsum_scale a b x y N k :
+  lagsum (fun t => cscale a (x t)) (fun t => cscale b (y t)) N k =c= cscale (a * b) (lagsum x y N k).
+Proof.
+  unfold lagsum. rewrite <- csumn_scale. apply csumn_ext. intros t Ht.
+  destruct ((N - 1 <=? t + k)%nat && (t + k <? N + N - 1)%nat); cring.
+Qed.
